@@ -86,7 +86,13 @@ fn main() {
     }
     if harness.starts_with("c03_table_") {
         let vals: Vec<u8> = args[2].split(',').filter_map(|x| x.trim().parse::<u64>().ok()).map(|x| x as u8).collect();
-        let out = r_c03::table(&vals);
+        let v2 = vals.clone();
+        let out = std::panic::catch_unwind(move || r_c03::table(&v2)).unwrap_or(Outcome {
+            reproduced: true,
+            role: "routing".into(),
+            scenario: "request for an interface routed through the populated table".into(),
+            detail: "VarlinkService::handle panicked".into(),
+        });
         print(&out, &vals);
         return;
     }
